@@ -195,6 +195,8 @@ impl<H: CmdCtxHandler + ThreadSafe + Clone> ServerProxyService<H> {
                 Err(e) => format!("Failed to get peer {}", e),
             };
             debug!("accept conn: {}", peer);
+            #[cfg(undermoon_verif)]
+            let sock = crate::common::verif::SimStream::from_tcp(sock);
 
             let curr_session_id = session_id.fetch_add(1, Ordering::SeqCst);
 
